@@ -231,8 +231,8 @@ def jobs(tier):
     js = []
     js.append(job_bipartite(3, 3))
     js.append(job_bipartite(2, 4))
+    js.append(job_bipartite(4, 4))      # the smallest size on which a second Hopcroft-Karp phase has to re-use a layered vertex
     if not q:
-        js.append(job_bipartite(4, 4))
         js.append(job_bipartite(3, 5))
     for (n, m) in ([(3, 3), (1, 1), (0, 2), (2, 0)] if q else [(3, 3), (4, 4), (3, 4), (4, 5)]):
         js.append(job_match_events(n, m, sort=True, perms=False))
